@@ -23,7 +23,9 @@ Definition dJobPh : dec (job_spec * Z) := let* j := dJobSpec in let* ph := dZ in
 Record spec := mkSpec {
   sp_eps : Z; sp_nodes : list node_spec; sp_queues : list queue_spec; sp_jobs : list (job_spec * Z);
   sp_tasks : list task_spec; sp_jx : list jx_spec; sp_tx : list tx_spec; sp_qr : list qr_spec;
-  sp_tiers : list (list plug); sp_actions : list Z }.
+  sp_tiers : list (list plug); sp_actions : list Z;
+  sp_faults : list (positive * positive);   (* (task, node): the allocate handler reports Event.Err *)
+  sp_refuse : list positive }.              (* cache.Evict refuses these tasks *)
 
 Definition dSpec : dec spec :=
   let* e := dZ in let* ns := dList dNodeSpec in let* qs := dList dQueueSpec in let* js := dList dJobPh in
@@ -33,7 +35,9 @@ Definition dSpec : dec spec :=
   let* qr := dList (let* i := dPos in let* r := dZ in ret (mkQr i r)) in
   let* tiers := dList (dList dPlug) in
   let* acts := dList dZ in
-  ret (mkSpec e ns qs js ts jx tx qr tiers acts).
+  let* fl := dList (dPair dPos dPos) in
+  let* rf := dList dPos in
+  ret (mkSpec e ns qs js ts jx tx qr tiers acts fl rf).
 
 Definition dQlim : dec qlim_spec :=
   let* i := dPos in let* a := dRes in let* b := dRes in let* c := dRes in ret (mkQl i a b c).
@@ -72,10 +76,12 @@ Definition env_of (sp : spec) (lims : list qlim_spec) : env :=
              match lm !! qs_id q with
              | Some l => mkQx (qs_open q) rc true (ql_dim l) (ql_hi l) (ql_lo l)
              | None => mkQx (qs_open q) rc false empty_res empty_res empty_res
-             end)) (sp_queues sp))).
+             end)) (sp_queues sp)))
+        (sp_faults sp).
 
 Definition sess_of (sp : spec) : sess :=
-  build (sp_eps sp) (sp_nodes sp) (map fst (sp_jobs sp)) (sp_tasks sp).
+  upd_faults (build (sp_eps sp) (sp_nodes sp) (map fst (sp_jobs sp)) (sp_tasks sp))
+             ∅ ∅ (list_to_set (sp_refuse sp)) true.
 
 (* per-choice observables: verdict, handler calls in order, evictor calls (sorted) *)
 Definition eStep (s s' : sess) (v : Z) : list Z :=
